@@ -399,7 +399,7 @@ NoSurvivors == skDone => child # "running" /\ ~grand
 ExecutorSurvives == exec = "ok"
 
 (* the same, except for the violation classes recorded as open findings *)
-Class(inv, q) == <<inv, kind, beh, q.r, q.inst, q.nth>>
+Class(inv, q) == <<inv, kind, beh, q.r, q.inst, IF q.nth > 2 THEN 2 ELSE q.nth>>   \* nth: first / repeated
 OneTerminalX == OneTerminal \/ Class("OneTerminal", termBy) \in Known
 KilledNotFailedX == KilledNotFailed \/ Class("KilledNotFailed", killBy) \in Known
 NoSurvivorsX == NoSurvivors \/ Class("NoSurvivors", doneBy) \in Known
